@@ -486,10 +486,46 @@ Definition cmp_q (op : cmpop) (a b : Q) : bool :=
   | CLe => Qle_bool a b
   | CGe => Qle_bool b a
   end.
+(* DataFrame.query compares binary64 values: round-to-nearest-even of the exact decimal (normal range; the
+   exponent is unbounded here, so overflow to inf and subnormals are outside the model) *)
+Definition round_half_even (n : Z) (d : positive) : Z :=
+  let q := Z.div n (Zpos d) in
+  let r := Z.modulo n (Zpos d) in
+  match Z.compare (2 * r) (Zpos d) with
+  | Lt => q
+  | Gt => (q + 1)%Z
+  | Eq => if Z.even q then q else (q + 1)%Z
+  end.
+Definition round_double (x : Q) : Q :=
+  match Qnum x with
+  | Z0 => 0 # 1
+  | _ =>
+      let n := Z.abs (Qnum x) in
+      let d := Qden x in
+      (* e = floor(log2 (n/d)) *)
+      let e0 := (Z.log2 n - Z.log2 (Zpos d))%Z in
+      let ge := match e0 with
+                | Zneg p => Z.leb (Zpos d) (n * Z.pow 2 (Zpos p))
+                | _ => Z.leb (Zpos d * Z.pow 2 e0) n
+                end in
+      let e := if ge then e0 else (e0 - 1)%Z in
+      (* mantissa m = round(n/d * 2^(52-e)), value m * 2^(e-52) *)
+      let sh := (52 - e)%Z in
+      let m := match sh with
+               | Zneg p => round_half_even n (d * Pos.pow 2 p)
+               | _ => round_half_even (n * Z.pow 2 sh) d
+               end in
+      let v := match sh with
+               | Zneg p => Qmake (m * Z.pow 2 (Zpos p)) 1
+               | Z0 => Qmake m 1
+               | Zpos p => Qmake m (Pos.pow 2 p)
+               end in
+      if Z.ltb (Qnum x) 0 then Qopp v else v
+  end.
 (* float comparison with NaN: everything False except != *)
 Definition cmp_cell (op : cmpop) (a : cell) (b : Q) : bool :=
   match a with
-  | CNum q => cmp_q op q b
+  | CNum q => cmp_q op (round_double q) (round_double b)
   | _ => match op with CNe => true | _ => false end
   end.
 (* object column == "text": a padded cell (None) is different from every string *)
